@@ -294,6 +294,8 @@ def _r18_1(ctx, run, rule='R18.1'):
         full = IntervalSet.of_type(ty64)
         if covered[vname] == full:
             run.proved(rule, b.path, f'coverage[{vname}]', f'the width arms partition all of {ty64}')
+        elif covered[vname].empty():
+            run.undecided(rule, b.path, f'coverage[{vname}]', f'no width arm for {vname} was recognised in this function (the form is chosen in a helper?): coverage of {ty64} is not decided', f'{b.file}:{b.line}')
         else:
             missing = full.intersect(covered[vname].complement())
             run.violation(rule, b.path, f'coverage[{vname}]', f'no arm encodes the values {missing}', f'{b.file}:{b.line}')
